@@ -7,7 +7,7 @@
 #include "cut.h"
 #include "corpus.h"
 
-typedef struct exch { hx_buf q, r; char name[200]; hx_cfgspec cfg; int nmsg; gx_msg truth[3]; } exch;
+typedef struct exch { hx_buf q, r; char name[200]; hx_cfgspec cfg; int nmsg; gx_msg truth[3]; int nb; size_t qend[3], rend[3]; /* message ends per stream (for --ilv) */ } exch;
 static exch *EX; static int NEX, CAPEX;
 static const char *PROPS;
 static hx_script S; static hx_obs O;
@@ -27,8 +27,9 @@ static void add_gen_pair(const int *q, const int *s, void *ctx) {
         hx_buf d = { 0 }; gx_describe(&d, q, s); hb_term(&d);
         snprintf(e->name, sizeof e->name, "gen %s as message %d of 2", (char *) d.p, where + 1); hb_free(&d);
         e->nmsg = 2;
-        if (where == 0) { gx_build(q, s, 1, 0, &e->truth[0], &e->q, &e->r); gx_build(dq, ds, 2, 1, &e->truth[1], &e->q, &e->r); }
-        else { gx_build(dq, ds, 1, 0, &e->truth[0], &e->q, &e->r); gx_build(q, s, 2, 1, &e->truth[1], &e->q, &e->r); }
+        if (where == 0) { gx_build(q, s, 1, 0, &e->truth[0], &e->q, &e->r); e->qend[0] = e->q.n; e->rend[0] = e->r.n; gx_build(dq, ds, 2, 1, &e->truth[1], &e->q, &e->r); }
+        else { gx_build(dq, ds, 1, 0, &e->truth[0], &e->q, &e->r); e->qend[0] = e->q.n; e->rend[0] = e->r.n; gx_build(q, s, 2, 1, &e->truth[1], &e->q, &e->r); }
+        e->nb = 2; e->qend[1] = e->q.n; e->rend[1] = e->r.n;
     }
 }
 static void add_adversarial(void) {
@@ -45,24 +46,27 @@ static void add_adversarial(void) {
             hb_puts(&e->q, "POST /one HTTP/1.1\r\nHost: h\r\n");
             if (qf == 0) { hb_printf(&e->q, "Content-Length: %zu\r\n\r\n", B[b].n); hb_put(&e->q, B[b].b, B[b].n); }
             else { hb_puts(&e->q, "Transfer-Encoding: chunked\r\n\r\n"); gx_chunked(&e->q, (const uint8_t *) B[b].b, B[b].n, sz, 1, 0, 0); }
+            e->qend[0] = e->q.n;
             hb_puts(&e->q, "GET /two HTTP/1.1\r\nHost: h\r\n\r\n");
             if (sf == 2) {
                 /* close-delimited must come last: first response is a plain CL one */
-                hb_puts(&e->r, "HTTP/1.1 200 OK\r\nContent-Length: 2\r\n\r\nok");
+                hb_puts(&e->r, "HTTP/1.1 200 OK\r\nContent-Length: 2\r\n\r\nok"); e->rend[0] = e->r.n;
                 hb_puts(&e->r, "HTTP/1.1 200 OK\r\n\r\n"); hb_put(&e->r, B[b].b, B[b].n);
             } else {
                 hb_puts(&e->r, "HTTP/1.1 200 OK\r\n");
                 if (sf == 0) { hb_printf(&e->r, "Content-Length: %zu\r\n\r\n", B[b].n); hb_put(&e->r, B[b].b, B[b].n); }
                 else { hb_puts(&e->r, "Transfer-Encoding: chunked\r\n\r\n"); gx_chunked(&e->r, (const uint8_t *) B[b].b, B[b].n, sz, 1, 0, 0); }
+                e->rend[0] = e->r.n;
                 hb_puts(&e->r, "HTTP/1.1 201 Created\r\nContent-Length: 2\r\n\r\nok");
             }
+            e->nb = 2; e->qend[1] = e->q.n; e->rend[1] = e->r.n;
         }
     }
 }
 static void add_micro(void) {
     /* streams short enough for all 2^(n-1) partitions */
-    exch *e = ex_new(); snprintf(e->name, sizeof e->name, "micro HTTP/0.9"); hb_puts(&e->q, "GET /zz\r\n"); hb_puts(&e->r, "hello\r\nx");
-    e = ex_new(); snprintf(e->name, sizeof e->name, "micro 1.0 close-delimited"); hb_puts(&e->q, "GET / HTTP/1.0\r\n\r\n"); hb_puts(&e->r, "HTTP/1.0 200\r\n\r\nab");
+    exch *e = ex_new(); snprintf(e->name, sizeof e->name, "micro HTTP/0.9"); hb_puts(&e->q, "GET /zz\r\n"); hb_puts(&e->r, "hello\r\nx"); e->nb = 1; e->qend[0] = e->q.n; e->rend[0] = e->r.n;
+    e = ex_new(); snprintf(e->name, sizeof e->name, "micro 1.0 close-delimited"); hb_puts(&e->q, "GET / HTTP/1.0\r\n\r\n"); hb_puts(&e->r, "HTTP/1.0 200\r\n\r\nab"); e->nb = 1; e->qend[0] = e->q.n; e->rend[0] = e->r.n;
 }
 
 /* ------------------------------------------------------------------ seg mode ----------------- */
@@ -86,11 +90,73 @@ static void run_and_compare(const char *what) {
         seg_reported++;
     }
 }
+/* --ilv: the same cut set under EVERY legal interleaving of the two chunk lists (a response chunk reaching into response m is
+ * offered only after every byte of requests <= m has been offered).  The connection's pipelining indicator follows the schedule
+ * (C04 judges it); everything else - every transaction field, body, callback order per side - must equal the uncut run. */
+static int seg_ilv; static hx_buf ref_dg_m; static long n_ilv;
+static hx_op ilq[80], ils[80]; static int nilq, nils; static size_t ilq_end[80], ils_end[80];
+static uint8_t ilsched[160];
+static void run_and_compare_ilv(void) {
+    if (hx_run(&S, &O)) return;
+    n_exec++; n_calls += O.ncalls; n_ilv++;
+    hx_digest(&O, &dg, DG_COALESCE | DG_MASK_MPH | DG_MASK_PIPE);
+    cx_set_add(&outcomes, hx_fnv(O.cbtrace.p, O.cbtrace.n, 0) ^ ((uint64_t) (cur_ex - EX) << 48));
+    hx_report_verdicts(&S, &O, PROPS);
+    if (strstr(PROPS, "C03") && !hb_eq(&dg, &ref_dg_m)) {
+        if (seg_reported < 40) {
+            char diff[800], msg[1100]; hx_first_diff(&ref_dg_m, &dg, diff, sizeof diff);
+            snprintf(msg, sizeof msg, "%s: parse differs from the uncut requests-first execution (cut set under an interleaved schedule): %s", cur_ex->name, diff);
+            S.label = cur_ex->name;
+            hx_emit_script_violation("C03", "seg_diff_ilv", msg, &S, &O);
+        }
+        seg_reported++;
+    }
+}
+static void ilv_dfs(int qi, int si, int len, int switched) {
+    if (qi == nilq && si == nils) {
+        if (!switched) return;                      /* requests-first: already executed */
+        S.nops = 0;
+        int a = 0, b = 0;
+        for (int k = 0; k < len; k++) { const hx_op *o = ilsched[k] ? &ils[b++] : &ilq[a++]; hx_script_add(&S, o->k, o->d, o->n); }
+        hx_script_add(&S, OP_CLOSE, NULL, 0);
+        run_and_compare_ilv();
+        return;
+    }
+    if (si < nils) {
+        int m = 0; while (m < cur_ex->nb - 1 && cur_ex->rend[m] < ils_end[si]) m++;
+        size_t offered = qi ? ilq_end[qi - 1] : 0;
+        if (offered >= cur_ex->qend[m]) { ilsched[len] = 1; ilv_dfs(qi, si + 1, len + 1, switched || qi < nilq); }
+    }
+    if (qi < nilq) { ilsched[len] = 0; ilv_dfs(qi + 1, si, len + 1, switched); }
+}
 static void seg_visit(const int *cuts, int ncuts, void *ctx) {
     (void) ctx;
     if (hx_deadline_hit()) return;
     cx_build(&S, cur_ex->q.p, cur_ex->q.n, cur_ex->r.p, cur_ex->r.n, cuts, ncuts, 1);
     run_and_compare("cut set");
+}
+/* --ilv D: both streams are cut at their message boundaries (so that whole messages can be interleaved) plus at most D further cuts
+ * anywhere; every legal interleaving other than requests-first is executed */
+static void seg_visit_ilv(const int *cuts, int ncuts, void *ctx) {
+    (void) ctx;
+    if (hx_deadline_hit()) return;
+    int all[16], n = 0, forced[4], nf = 0;
+    for (int m = 0; m + 1 < cur_ex->nb; m++) { forced[nf++] = (int) cur_ex->qend[m]; }
+    for (int m = 0; m + 1 < cur_ex->nb; m++) { forced[nf++] = (int) (cur_ex->q.n + cur_ex->rend[m]); }
+    /* sorted union */
+    int a = 0, b = 0;
+    while (a < ncuts || b < nf) {
+        int v;
+        if (b >= nf || (a < ncuts && cuts[a] <= forced[b])) { v = cuts[a++]; if (b < nf && forced[b] == v) b++; } else v = forced[b++];
+        all[n++] = v;
+    }
+    cx_build(&S, cur_ex->q.p, cur_ex->q.n, cur_ex->r.p, cur_ex->r.n, all, n, 1);
+    nilq = nils = 0; size_t oq = 0, os = 0;
+    for (int k = 0; k < S.nops; k++) {
+        if (S.ops[k].k == OP_Q) { ilq[nilq] = S.ops[k]; oq += S.ops[k].n; ilq_end[nilq++] = oq; }
+        else if (S.ops[k].k == OP_S) { ils[nils] = S.ops[k]; os += S.ops[k].n; ils_end[nils++] = os; }
+    }
+    ilv_dfs(0, 0, 0, 0);
 }
 static void partitions(const exch *e) {
     size_t nq = e->q.n, ns = e->r.n; int np = (int) (nq - 1 + ns - 1);
@@ -108,6 +174,7 @@ static void mode_seg(int argc, char **argv) {
     int layers = atoi(hx_arg(argc, argv, "--layers", thorough ? "3" : "2"));
     int window3 = atoi(hx_arg(argc, argv, "--window3", "24"));
     const char *source = hx_arg(argc, argv, "--source", "gen");
+    seg_ilv = atoi(hx_arg(argc, argv, "--ilv", "0"));
     int first_micro;
     if (!strcmp(source, "edits") || !strcmp(source, "bases")) {
         /* "bases": the well-formed base exchanges of the edits mode (CONNECT, upgrade, 100-continue, pipelines, multipart, ...);
@@ -129,10 +196,12 @@ static void mode_seg(int argc, char **argv) {
         cx_build(&S, cur_ex->q.p, cur_ex->q.n, cur_ex->r.p, cur_ex->r.n, NULL, 0, 1);
         if (hx_run(&S, &O)) continue;
         n_exec++; n_calls += O.ncalls;
+        hx_digest(&O, &ref_dg_m, DG_COALESCE | DG_MASK_MPH | DG_MASK_PIPE);
         hx_digest(&O, &ref_dg, DG_COALESCE | DG_MASK_MPH);
         hx_report_verdicts(&S, &O, PROPS);
         if (i < 3) { static hx_buf sb; hb_reset(&sb); hb_printf(&sb, "exchange \"%s\": request %zu bytes, response %zu bytes; every cut set of size <= %d compared with the uncut run; e.g. request=", cur_ex->name, cur_ex->q.n, cur_ex->r.n, layers); hb_esc(&sb, cur_ex->q.p, cur_ex->q.n > 160 ? 160 : cur_ex->q.n); hb_term(&sb); hx_emit_sample((char *) sb.p); }
         int np = cx_all_positions(pos, cur_ex->q.n, cur_ex->r.n);
+        if (seg_ilv) { seg_visit_ilv(NULL, 0, NULL); cx_enum_cuts(pos, np, seg_ilv - 1, 0, seg_visit_ilv, NULL); continue; }
         cx_enum_cuts(pos, np, layers >= 2 ? 2 : 1, 0, seg_visit, NULL);
         if (layers >= 3) {
             size_t tot = cur_ex->q.n + cur_ex->r.n;
@@ -151,6 +220,7 @@ static void mode_seg(int argc, char **argv) {
         if (i >= first_micro) partitions(cur_ex);
     }
     hx_emit_stat("exchanges", NEX / hx_shard_n + (hx_shard_i < NEX % hx_shard_n));
+    if (seg_ilv) hx_emit_stat("interleaved_executions", n_ilv);
 }
 
 /* ------------------------------------------------------------------ gen mode ----------------- */
@@ -641,7 +711,9 @@ static void mode_tunnel(int argc, char **argv) {
     static const int STAT[] = { 200, 204, 101, 407, 403, 500 };
     static hx_buf q, r;
     for (int reqkind = 0; reqkind < 2; reqkind++)            /* 0 CONNECT, 1 GET with Upgrade */
-    for (size_t si = 0; si < 6; si++) for (int payload = 0; payload < 4; payload++) for (int body = 0; body < 2; body++) {
+    for (size_t si = 0; si < 6; si++) for (int payload = 0; payload < 4; payload++) for (int body = 0; body < 2; body++) for (int interim = 0; interim < 2; interim++) {
+        /* interim: the final answer is preceded by an interim "100 Continue" response (swallowed by the response parser; with a cut at its end and a
+         * request call in between, the request side must keep waiting for the FINAL status) */
         int status = STAT[si];
         if (reqkind == 1 && status != 101) continue;          /* the upgrade exchange is only about 101 */
         int twoxx = status >= 200 && status < 300;
@@ -653,6 +725,7 @@ static void mode_tunnel(int argc, char **argv) {
         if (payload == 1) hb_puts(&q, "GET /t1 HTTP/1.1\r\nHost: h\r\n\r\nGET /t2 HTTP/1.1\r\nHost: h\r\n\r\n");
         else if (payload == 2) hb_put(&q, "\x16\x03\x01\x00\x2e\x01\x00\x00\x2a\x03\x03\n\x00\xff", 14);
         else if (payload == 3) hb_put(&q, "\x16\x03\x01\x00\x2e\x01\x00\x00\x2a\x03\x03\x07\x00\xff", 14);   /* no LF at all: only the NUL ends the probe */
+        if (interim) hb_puts(&r, "HTTP/1.1 100 Continue\r\n\r\n");
         hb_printf(&r, "HTTP/1.1 %d X\r\n", status);
         if (body) hb_puts(&r, "Content-Length: 2\r\n\r\nno"); else if (!twoxx && status != 101) hb_puts(&r, "Content-Length: 0\r\n\r\n"); else hb_puts(&r, "\r\n");
         size_t rhead = r.n - (body ? 2 : 0);
@@ -678,7 +751,7 @@ static void mode_tunnel(int argc, char **argv) {
             else pq[0] = (pchunk) { q.p, (uint32_t) q.n };
             if (rcut > 0 && rcut < r.n) { pr[0] = (pchunk) { r.p, (uint32_t) rcut }; pr[1] = (pchunk) { r.p + rcut, (uint32_t) (r.n - rcut) }; nr = 2; }
             else pr[0] = (pchunk) { r.p, (uint32_t) r.n };
-            snprintf(TT.desc, sizeof TT.desc, "%s status=%d payload=%s body=%d qcut=%d rcut=%d auto_destroy=%d", reqkind ? "GET+Upgrade" : "CONNECT", status,
+            snprintf(TT.desc, sizeof TT.desc, "%s status=%d%s payload=%s body=%d qcut=%d rcut=%d auto_destroy=%d", reqkind ? "GET+Upgrade" : "CONNECT", status, interim ? " after an interim 100" : "",
                      payload == 0 ? "none" : payload == 1 ? "2 HTTP requests" : payload == 2 ? "TLS-like bytes" : "TLS-like bytes without LF", body, qc, rc, ad);
             if (id % 700 == 0) hx_emit_sample(TT.desc);
             tunnel_exec(pq, nq, pr, nr, head_chunk, ad);
@@ -946,6 +1019,15 @@ static const ebase BASES[] = {
     { "!gzip response, data not gzip", { "GET /g HTTP/1.1\r\n", "Host: h\r\n", "\r\n" }, { "HTTP/1.1 200 OK\r\n", "Content-Encoding: gzip\r\n", "Content-Length: 24\r\n", "\r\n", "not gzip at ", "all, really!" } },
     { "!gzip response until close, data not gzip", { "GET /g HTTP/1.0\r\n", "\r\n" }, { "HTTP/1.0 200 OK\r\n", "Content-Encoding: gzip\r\n", "\r\n", "not gzip at ", "all, really!" } },
     { "gzip response", { "GET /g HTTP/1.1\r\n", "Host: h\r\n", "\r\n" }, { "HTTP/1.1 200 OK\r\n", "Content-Encoding: gzip\r\n", "Content-Length: 29\r\n", "\r\n", "hex:1f8b0800000000000203cb48cdc9", "hex:c957c8c04e0200f6d253381d000000" } },
+    /* coded bodies in chunked framing with a trailer, complete and cut short inside the deflate data (the decoder still holds output when the last chunk arrives) */
+    { "gzip response, chunked with trailer", { "GET /g HTTP/1.1\r\n", "Host: h\r\n", "\r\n" },
+        { "HTTP/1.1 200 OK\r\n", "Content-Encoding: gzip\r\n", "Transfer-Encoding: chunked\r\n", "\r\n", "e\r\n", "hex:1f8b0800000000000203cb48cdc9", "\r\n", "f\r\n", "hex:c957c8c04e0200f6d253381d000000", "\r\n", "0\r\n", "X-T: t\r\n", "\r\n" } },
+    { "!gzip response cut short, chunked with trailer", { "GET /g HTTP/1.1\r\n", "Host: h\r\n", "\r\n" },
+        { "HTTP/1.1 200 OK\r\n", "Content-Encoding: gzip\r\n", "Transfer-Encoding: chunked\r\n", "\r\n", "e\r\n", "hex:1f8b0800000000000203cb48cdc9", "\r\n", "4\r\n", "hex:c957c8c0", "\r\n", "0\r\n", "X-T: t\r\n", "\r\n" } },
+    { "gzip request, chunked with trailer", { "POST /g HTTP/1.1\r\n", "Host: h\r\n", "Content-Encoding: gzip\r\n", "Transfer-Encoding: chunked\r\n", "\r\n", "e\r\n", "hex:1f8b0800000000000203cb48cdc9", "\r\n", "f\r\n", "hex:c957c8c04e0200f6d253381d000000", "\r\n", "0\r\n", "X-T: t\r\n", "\r\n" },
+        { "HTTP/1.1 200 OK\r\n", "Content-Length: 2\r\n", "\r\n", "ok" } },
+    { "!gzip request cut short, chunked with trailer", { "POST /g HTTP/1.1\r\n", "Host: h\r\n", "Content-Encoding: gzip\r\n", "Transfer-Encoding: chunked\r\n", "\r\n", "e\r\n", "hex:1f8b0800000000000203cb48cdc9", "\r\n", "4\r\n", "hex:c957c8c0", "\r\n", "0\r\n", "X-T: t\r\n", "\r\n" },
+        { "HTTP/1.1 200 OK\r\n", "Content-Length: 2\r\n", "\r\n", "ok" } },
 };
 #define NBASES ((int) (sizeof BASES / sizeof BASES[0]))
 static etok EQ[40], ER[40]; static int NEQ, NER;
